@@ -125,6 +125,10 @@ macro_rules! for_each_shared {
         $m!(VecDeque<i32>); $m!(BTreeSet<u16>);
         $m!([u8; 0]); $m!([u16; 1]); $m!([i32; 3]); $m!([u8; 32]); $m!([String; 2]);
         $m!((u8,)); $m!((u8, String)); $m!((i64, bool, f32)); $m!((u8, i8, u16, i16, u32, i32, u64, i64, bool, char, f32, f64));
+        $m!((u8, i8, u16, i16)); $m!((u8, i8, u16, i16, u32)); $m!((u8, i8, u16, i16, u32, i32)); $m!((u8, i8, u16, i16, u32, i32, u64)); $m!((u8, i8, u16, i16, u32, i32, u64, i64));
+        $m!((u8, i8, u16, i16, u32, i32, u64, i64, bool)); $m!((u8, i8, u16, i16, u32, i32, u64, i64, bool, char)); $m!((u8, i8, u16, i16, u32, i32, u64, i64, bool, char, f32));
+        $m!((u8, i8, u16, i16, u32, i32, u64, i64, bool, char, f32, f64, String)); $m!((u8, i8, u16, i16, u32, i32, u64, i64, bool, char, f32, f64, String, ()));
+        $m!((u8, i8, u16, i16, u32, i32, u64, i64, bool, char, f32, f64, String, (), Option<u8>)); $m!((u8, i8, u16, i16, u32, i32, u64, i64, bool, char, f32, f64, String, (), Option<u8>, Vec<u8>));
         $m!(BTreeMap<u8, String>); $m!(BTreeMap<String, Vec<(u8, Option<i64>)>>); $m!(BTreeMap<i16, BTreeMap<u8, bool>>);
         $m!(Box<u32>); $m!(Wrapping<u16>); $m!(Wrapping<i64>);
         $m!(NonZeroU8); $m!(NonZeroU32); $m!(NonZeroU64); $m!(NonZeroI16); $m!(NonZeroI64);
